@@ -51,7 +51,7 @@ class RecordingScheduler:
         self.sim = sim
         self.reports: list[tuple] = []
         self.config = types.SimpleNamespace(configdir=configdir, get=lambda *a, **k: {})
-        self.logger = None
+        self.logger = types.SimpleNamespace(level=logging.INFO)
 
     def done_job(self, job, result, job_tags=[]):
         self.reports.append(("done", job.id if job is not None else None))
@@ -83,6 +83,15 @@ class FakeBackendApi:
         self.jobs[ext] = {"job": job, "polls_left": self.ch.choice(3, "polls"),
                           "fail": self.ch.coin(0.2, "job-fails")}
         self.sim.event("api-submit", job.id, ext)
+        return ext
+
+    def submit_array(self, jobs) -> str:
+        self.counter += 1
+        ext = f"arr{self.counter}"
+        for i, job in enumerate(jobs):
+            self.jobs[f"{ext}:{i}"] = {"job": job, "polls_left": self.ch.choice(3, "polls"),
+                                       "fail": self.ch.coin(0.2, "job-fails")}
+        self.sim.event("api-submit-array", tuple(j.id for j in jobs), ext)
         return ext
 
     def poll(self, ext: str) -> Optional[str]:
@@ -145,7 +154,298 @@ def make_docker(sim, ch, scratch: str, api: FakeBackendApi, sched: RecordingSche
     return ex, restore, float(interval)
 
 
-EXECUTORS = {"docker": make_docker}
+class Patcher:
+    def __init__(self):
+        self.saved = []
+
+    def set(self, mod, name, value):
+        self.saved.append((mod, name, getattr(mod, name)))
+        setattr(mod, name, value)
+
+    def restore(self):
+        for mod, name, value in reversed(self.saved):
+            setattr(mod, name, value)
+
+
+def _fake_error():
+    from redun.scheduler import Traceback
+
+    err = ValueError("remote failure")
+    return err, Traceback.from_error(err)
+
+
+# ---------------------------------------------------------------------------
+# AWS Batch
+# ---------------------------------------------------------------------------
+
+
+def make_aws_batch(sim, ch, scratch: str, api: FakeBackendApi, sched: RecordingScheduler):
+    import redun.executors.aws_batch as m
+    import redun.executors.docker as dm
+    import redun.job_array as ja
+    from redun.config import Config
+
+    P = Patcher()
+    shim_t, shim_time = sim.threading_shim(), sim.time_shim()
+    for mod in (m, ja, dm):
+        P.set(mod, "threading", shim_t)
+        P.set(mod, "time", shim_time)
+    P.set(m, "aws_utils", types.SimpleNamespace(
+        get_aws_user=lambda *a, **k: "user", get_default_region=lambda: "us-west-2",
+        get_aws_client=lambda *a, **k: None))
+
+    def submit_task(image, queue, s3_scratch_prefix, job, a_task, args=(), kwargs={},
+                    job_options={}, code_file=None, aws_region=None, array_uuid=None,
+                    array_size=0, **kw):
+        if array_uuid:
+            return {"jobId": api.submit_array(CURRENT_ARRAY["jobs"]), "jobName": "arr"}
+        return {"jobId": api.submit(job), "jobName": "single"}
+
+    CURRENT_ARRAY = {"jobs": []}
+
+    def write_array_job_scratch_files(jobs, prefix, array_uuid, include_eval_hash=False, **kw):
+        CURRENT_ARRAY["jobs"] = list(jobs)
+
+    def iter_batch_job_status(job_ids, pending_truncate=10, aws_region=None):
+        for ext in job_ids:
+            st = api.poll(ext)
+            yield {"jobId": ext, "status": st if st else "RUNNING", "attempts": []}
+
+    P.set(m, "submit_task", submit_task)
+    P.set(m, "write_array_job_scratch_files", write_array_job_scratch_files)
+    P.set(m, "iter_batch_job_status", iter_batch_job_status)
+    P.set(m, "aws_describe_jobs", lambda ids, aws_region=None: iter([]))
+    P.set(m, "get_job_log_stream", lambda job, aws_region=None: None)
+    P.set(m, "parse_job_result", lambda prefix, job: (42, True))
+    P.set(m, "parse_job_error", lambda prefix, job, batch_job_metadata=None: _fake_error())
+    P.set(m, "parse_job_logs", lambda job_id, required=False, aws_region=None: [])
+    interval = ["0.2", "1.0", "5.0"][ch.choice(3, "monitor-interval")]
+    stale = ["0.05", "0.5", "3.0"][ch.choice(3, "stale-time")]
+    cfg = Config({"ex": {"image": "img", "queue": "q", "s3_scratch": scratch,
+                         "job_monitor_interval": interval, "job_stale_time": stale,
+                         "code_package": "False", "default_batch_tags": "False",
+                         "min_array_size": str(2 + ch.choice(3, "min-array")),
+                         "max_array_size": "4", "aws_region": "us-west-2"}})
+    ex = m.AWSBatchExecutor("ex", scheduler=None, config=cfg["ex"])
+    ex._scheduler = sched
+    ex._docker_executor._scheduler = sched
+    ex.get_jobs = lambda statuses=None: iter([])
+    return ex, P.restore, float(interval) + float(stale)
+
+
+# ---------------------------------------------------------------------------
+# Kubernetes (submit / start / monitor / stop control flow real; status processing stubbed)
+# ---------------------------------------------------------------------------
+
+
+def make_k8s(sim, ch, scratch: str, api: FakeBackendApi, sched: RecordingScheduler):
+    import redun.executors.k8s as m
+    import redun.job_array as ja
+    from redun.config import Config
+
+    P = Patcher()
+    shim_t, shim_time = sim.threading_shim(), sim.time_shim()
+    for mod in (m, ja):
+        P.set(mod, "threading", shim_t)
+        P.set(mod, "time", shim_time)
+
+    class FakeClient:
+        def version(self):
+            return (1, 25)
+
+    P.set(m, "k8s_utils", types.SimpleNamespace(
+        K8SClient=FakeClient, DEFAULT_JOB_PREFIX="redun-job",
+        create_namespace=lambda *a, **k: None, create_k8s_secret=lambda *a, **k: None))
+    CURRENT_ARRAY = {"jobs": []}
+
+    def meta(name):
+        return types.SimpleNamespace(metadata=types.SimpleNamespace(name=name, uid="uid-" + name))
+
+    def submit_task(client, image, namespace, scratch_prefix, job, a_task, args=(), kwargs={},
+                    job_options={}, code_file=None, array_uuid=None, array_size=0, **kw):
+        if array_uuid:
+            return meta(api.submit_array(CURRENT_ARRAY["jobs"]))
+        return meta(api.submit(job))
+
+    def write_array_job_scratch_files(jobs, prefix, array_uuid, include_eval_hash=False, **kw):
+        CURRENT_ARRAY["jobs"] = list(jobs)
+
+    P.set(m, "submit_task", submit_task)
+    P.set(m, "write_array_job_scratch_files", write_array_job_scratch_files)
+    P.set(m, "k8s_describe_jobs", lambda client, names, namespace=None: [meta(n) for n in names])
+    interval = ["0.2", "1.0", "5.0"][ch.choice(3, "monitor-interval")]
+    stale = ["0.05", "0.5", "3.0"][ch.choice(3, "stale-time")]
+    cfg = Config({"ex": {"image": "img", "scratch": scratch, "type": "k8s",
+                         "job_monitor_interval": interval, "job_stale_time": stale,
+                         "code_package": "False", "default_k8s_labels": "False",
+                         "create_namespace": "False", "import_aws_secrets": "False",
+                         "min_array_size": str(2 + ch.choice(3, "min-array")),
+                         "max_array_size": "4"}})
+    ex = m.K8SExecutor("ex", scheduler=None, config=cfg["ex"])
+    ex._scheduler = sched
+    ex.gather_inflight_jobs = lambda: None
+    ex._setup_secrets = lambda: None
+
+    def process(k8s_job):
+        # stub of _process_k8s_job_status: report finished jobs, keep the rest pending
+        name = k8s_job.metadata.name
+        entry = ex.pending_k8s_jobs.get(name)
+        if entry is None:
+            return
+        if isinstance(entry, dict):
+            # Like the real code, an array is resolved only once the whole K8S job is terminal
+            # (all indices finished); until then the entry stays.
+            children = sorted(k for k in api.jobs if k.startswith(name + ":"))
+            if len(entry) < len(children):
+                return  # still being filled by the submitting thread
+            states = {k: api.poll(k) for k in children}
+            if any(v is None for v in states.values()):
+                return
+            for k in children:
+                i = int(k.rsplit(":", 1)[1])
+                job = entry.pop(i, None)
+                if job is None:
+                    continue
+                (sched.done_job(job, 42) if states[k] == "SUCCEEDED"
+                 else sched.reject_job(job, ValueError("remote failure")))
+            ex.pending_k8s_jobs.pop(name, None)
+        else:
+            st = api.poll(name)
+            if st is None:
+                return
+            ex.pending_k8s_jobs.pop(name, None)
+            (sched.done_job(entry, 42) if st == "SUCCEEDED"
+             else sched.reject_job(entry, ValueError("remote failure")))
+
+    ex._process_k8s_job_status = process
+    return ex, P.restore, float(interval) + float(stale)
+
+
+# ---------------------------------------------------------------------------
+# GCP Batch
+# ---------------------------------------------------------------------------
+
+
+def make_gcp_batch(sim, ch, scratch: str, api: FakeBackendApi, sched: RecordingScheduler):
+    import redun.executors.docker as dm
+    import redun.executors.gcp_batch as m
+    import redun.job_array as ja
+    from google.api_core.exceptions import NotFound
+    from google.cloud.batch_v1 import TaskStatus
+    from redun.config import Config
+
+    P = Patcher()
+    shim_t, shim_time = sim.threading_shim(), sim.time_shim()
+    for mod in (m, ja, dm):
+        P.set(mod, "threading", shim_t)
+        P.set(mod, "time", shim_time)
+    CURRENT_ARRAY = {"jobs": []}
+    not_visible: dict = {}
+
+    def batch_submit(client=None, job_name="", task_count=1, **kw):
+        if job_name.startswith(m.REDUN_ARRAY_JOB_PREFIX):
+            jobs = CURRENT_ARRAY["jobs"]
+            ext = api.submit_array(jobs)
+            # array children are polled as "<ext>/tasks/<i>"; register them under that name too
+            for i in range(len(jobs)):
+                api.jobs[f"{ext}/tasks/{i}"] = api.jobs.pop(f"{ext}:{i}")
+                not_visible[f"{ext}/tasks/{i}"] = ch.choice(2, "gcp-not-visible")
+            n = len(jobs)
+        else:
+            ext = api.submit(kw.get("_job") or types.SimpleNamespace(id=job_name))
+            api.jobs[f"{ext}/tasks/0"] = api.jobs.pop(ext)
+            not_visible[f"{ext}/tasks/0"] = ch.choice(2, "gcp-not-visible")
+            n = 1
+        return types.SimpleNamespace(uid="uid-" + ext,
+                                     task_groups=[types.SimpleNamespace(name=ext, task_count=n)])
+
+    def get_task(client=None, task_name=""):
+        if not_visible.get(task_name, 0) > 0:
+            not_visible[task_name] -= 1
+            raise NotFound("task not instantiated yet")
+        st = api.poll(task_name)
+        state = {None: TaskStatus.State.RUNNING, "SUCCEEDED": TaskStatus.State.SUCCEEDED,
+                 "FAILED": TaskStatus.State.FAILED}[st]
+        return types.SimpleNamespace(name=task_name, status=types.SimpleNamespace(state=state))
+
+    def write_array_job_scratch_files(jobs, prefix, array_uuid, include_eval_hash=False, **kw):
+        CURRENT_ARRAY["jobs"] = list(jobs)
+
+    P.set(m, "gcp_utils", types.SimpleNamespace(
+        get_gcp_batch_client=lambda *a, **k: object(), get_gcp_compute_client=lambda *a, **k: object(),
+        list_jobs=lambda *a, **k: [], list_tasks=lambda *a, **k: [], get_task=get_task,
+        batch_submit=batch_submit,
+        get_compute_machine_type=lambda *a, **k: types.SimpleNamespace(memory_mb=16384, guest_cpus=4)))
+    P.set(m, "write_array_job_scratch_files", write_array_job_scratch_files)
+    P.set(m, "get_oneshot_command", lambda *a, **k: ["cmd"])
+    P.set(m, "parse_job_result", lambda prefix, job: (42, True))
+    P.set(m, "parse_job_error", lambda prefix, job: _fake_error())
+    interval = ["0.2", "1.0", "5.0"][ch.choice(3, "monitor-interval")]
+    stale = ["0.05", "0.5", "3.0"][ch.choice(3, "stale-time")]
+    cfg = Config({"ex": {"image": "img", "gcs_scratch": scratch, "project": "p", "region": "r",
+                         "job_monitor_interval": interval, "job_stale_time": stale,
+                         "code_package": "False",
+                         "min_array_size": str(2 + ch.choice(3, "min-array")),
+                         "max_array_size": "4"}})
+    ex = m.GCPBatchExecutor("ex", scheduler=None, config=cfg["ex"])
+    ex._scheduler = sched
+    ex._docker_executor._scheduler = sched
+    return ex, P.restore, float(interval) + float(stale)
+
+
+# ---------------------------------------------------------------------------
+# AWS Glue
+# ---------------------------------------------------------------------------
+
+
+def make_aws_glue(sim, ch, scratch: str, api: FakeBackendApi, sched: RecordingScheduler):
+    import redun.executors.aws_glue as m
+    from redun.config import Config
+
+    P = Patcher()
+    P.set(m, "threading", sim.threading_shim())
+    P.set(m, "time", sim.time_shim())
+
+    class Exc(Exception):
+        pass
+
+    client = types.SimpleNamespace(exceptions=types.SimpleNamespace(
+        ConcurrentRunsExceededException=Exc, ResourceNumberLimitExceededException=Exc))
+    P.set(m, "aws_utils", types.SimpleNamespace(
+        get_aws_client=lambda *a, **k: client, get_default_region=lambda: "us-west-2",
+        DEFAULT_AWS_REGION="us-west-2"))
+
+    def submit_glue_job(job, a_task, **kw):
+        if ch.coin(0.15, "glue-busy"):
+            raise Exc("too many concurrent runs")
+        return {"JobRunId": api.submit(job)}
+
+    def glue_describe_jobs(ids, glue_job_name=None, aws_region=None):
+        for ext in ids:
+            st = api.poll(ext)
+            yield {"Id": ext, "JobRunState": {None: "RUNNING", "SUCCEEDED": "SUCCEEDED",
+                                             "FAILED": "FAILED"}[st], "LogGroupName": "lg"}
+
+    P.set(m, "submit_glue_job", submit_glue_job)
+    P.set(m, "glue_describe_jobs", glue_describe_jobs)
+    P.set(m, "parse_job_result", lambda prefix, job: (42, True))
+    P.set(m, "get_job_insight_traceback", lambda **k: [])
+    interval = ["0.2", "1.0", "5.0"][ch.choice(3, "monitor-interval")]
+    retry = ["0.3", "2.0"][ch.choice(2, "retry-interval")]
+    cfg = Config({"ex": {"s3_scratch": scratch, "role": "r", "job_monitor_interval": interval,
+                         "job_retry_interval": retry, "code_package": "False",
+                         "aws_region": "us-west-2"}})
+    ex = m.AWSGlueExecutor("ex", scheduler=None, config=cfg["ex"])
+    ex._scheduler = sched
+    ex.glue_job_name = "gluejob"
+    ex.redun_zip_location = "zip"
+    ex.code_file = object()
+    ex.get_jobs = lambda statuses=None: iter([])
+    return ex, P.restore, float(interval) + float(retry)
+
+
+EXECUTORS = {"docker": make_docker, "aws_batch": make_aws_batch, "k8s": make_k8s,
+             "gcp_batch": make_gcp_batch, "aws_glue": make_aws_glue}
 
 
 class C10(Check):
@@ -164,7 +464,9 @@ class C10(Check):
         "completes each job after 0-2 polls",
         "the scheduler is a recording stub (done_job / reject_job / log)",
     ]
-    COMPONENTS_REAL = ["DockerExecutor._submit/_start/_monitor/_process_job_status/stop"]
+    COMPONENTS_REAL = ["DockerExecutor._submit/_start/_monitor/_process_job_status/stop",
+                       "AWSBatchExecutor._submit/_submit_jobs/_submit_single_job/_submit_array_job/"
+                       "_start/_monitor/_process_job_status/stop with its real JobArrayer"]
     COMPONENTS_STUB = ["thread scheduling and time: ThreadSim", "docker CLI / scratch files: fake "
                        "submit_task, iter_job_status, parse_job_result, parse_job_error",
                        "Scheduler: recording stub"]
@@ -173,13 +475,21 @@ class C10(Check):
 
     def setup(self) -> None:
         logging.disable(logging.CRITICAL)
+        import redun.executors.aws_batch as ab
+        import redun.executors.aws_glue as ag
         import redun.executors.docker as d
+        import redun.executors.gcp_batch as gb
+        import redun.executors.k8s as k8
+        import redun.job_array as ja
 
-        threadsim.trace_modules([(d, "line")])
+        threadsim.trace_modules([(d, "line"), (ab, "line"), (ja, "line"), (k8, "line"),
+                                 (gb, "line"), (ag, "line")])
 
     def run_one(self, ch: Choices) -> RunOutcome:
         out = RunOutcome()
-        kind = list(EXECUTORS)[ch.choice(len(EXECUTORS), "executor")]
+        kinds = [k for k in EXECUTORS if not os.environ.get("VERIF_C10_ONLY")
+                 or k in os.environ["VERIF_C10_ONLY"].split(",")]
+        kind = kinds[ch.choice(len(kinds), "executor")]
         sim = threadsim.ThreadSim(ch, horizon=400)
         scratch = os.path.join(schedsim.scratch_dir(), "exscratch")
         os.makedirs(scratch, exist_ok=True)
